@@ -296,6 +296,11 @@ def _trainer_defaults(cls):
                 c.ensure("per_cell_override_wins", z3.And(num(st2.fields[first]) == ov.z, *[num(st2.fields[n]) == stored(n) for n in names[1:]]))
             else:
                 c.ensure("kernels_and_their_kwargs_reach_the_state", st.fields["kernel_post"] == "<kernel_post>" and st.fields["kernel_pre"] == "<kernel_pre>" and dict(st.fields["kernel_post_kwargs"]) == {"a": 1} and dict(st.fields["kernel_pre_kwargs"]) == {"b": 2})
+                # cell-by-cell overrides of ONE side's kernel / keyword arguments leave the other side at the trainer's values
+                for side, other in (("post", "pre"), ("pre", "post")):
+                    st2 = c.call(c.getattr(tr, "_build_cell_state"), **{f"kernel_{side}_kwargs": {"o": 9}, f"kernel_{side}": f"<override_{side}>"})
+                    keep = {"a": 1} if other == "post" else {"b": 2}
+                    c.ensure(f"per_cell_override_of_the_{side}_kernel_wins_and_leaves_the_{other}_kernel_alone", dict(st2.fields[f"kernel_{side}_kwargs"]) == {"o": 9} and st2.fields[f"kernel_{side}"] == f"<override_{side}>" and dict(st2.fields[f"kernel_{other}_kwargs"]) == keep and st2.fields[f"kernel_{other}"] == f"<kernel_{other}>")
             c.canary("canary_default_is_the_other_reduction", z3.BoolVal(cfg == "default" and got is c.interp.torch_ns.get("mean" if three_factor else "sum")))
 
 
@@ -303,6 +308,7 @@ for _t in TRAINER_CTORS:
     _trainer_defaults(_t)
 
 MUTANTS = [
+    dict(file=KS, func="DelayAdjustedKernelSTDPD._build_cell_state", old='        kernel_pre_kwargs = kwargs.get(\n            "kernel_pre_kwargs",', new='        kernel_pre_kwargs = kwargs.get(\n            "kernel_post_kwargs",', contracts=["DelayAdjustedKernelSTDPD.defaults"], name="seed C18f: the presynaptic kernel arguments are overridden by the POSTsynaptic per-cell override"),
     dict(file=T3, func="MSTDPET.register_cell", old='                reducer=state.tracecls(\n                    cell.connection.dt,\n                    state.tc_pre,', new='                reducer=CumulativeTraceReducer(\n                    cell.connection.dt,\n                    state.tc_pre,', contracts=["MSTDPET.register_cell"], name="seed C08e: presynaptic trace ignores the configured trace mode"),
     dict(file=KS, func="DelayAdjustedKernelSTDP.__init__", old="        self.batchreduce = batch_reduction if batch_reduction else torch.mean", new="        self.batchreduce = batch_reduction if batch_reduction else torch.sum", contracts=["DelayAdjustedKernelSTDP.defaults"], name="seed C18b: default batch reduction sum instead of the documented mean"),
     dict(file=D2, func="DelayAdjustedSTDPD.__init__", old="        self.lr_neg = float(lr_neg)", new="        self.lr_neg = float(lr_pos)", contracts=["DelayAdjustedSTDPD.defaults"]),
